@@ -82,3 +82,12 @@ Example spec_procedure_agreement_nonvacuous :
   extract_proto_path ([x68; x74; x74; x70; x3a; x2f; x2f; x68; x2f; x70] ++ slash :: [x61; x2e; x53] ++ slash :: [x4d])
   = slash :: [x61; x2e; x53] ++ slash :: [x4d].
 Proof. repeat split; reflexivity. Qed.
+
+(* "...matching what the calling client's interceptors see": a Request value sent
+   through any list of clients in turn (a retry against another backend, a relay
+   handler forwarding the request it received) is stamped with each client's own
+   Spec before that client's interceptors run. *)
+Theorem client_interceptors_see_their_clients_spec : forall (spec : Type) (clients : list spec) prev,
+  through_clients spec prev clients = clients.
+Proof. exact through_clients_own_spec. Qed.
+Print Assumptions client_interceptors_see_their_clients_spec.
